@@ -30,7 +30,8 @@ ASSUMPTIONS = ["audit events are delivered for every open/rename/remove/truncate
                "the appended --logfile is not an output kind of the statement"]
 # <EOF>: the prompt gets no answer (stdin at end of file); <INT>: Ctrl+C while the question is pending
 # <ERR>: reading the answer fails (undecodable bytes)
-ANSWERS = ["y", "n", "", "Y", "yes", " y", "<EOF>", "<INT>", "<ERR>"]
+# <NOSTDIN>: the process has no standard input at all (input() raises RuntimeError)
+ANSWERS = ["y", "n", "", "Y", "yes", " y", "<EOF>", "<INT>", "<ERR>", "<NOSTDIN>"]
 
 
 # ------------------------------------------------------------------ input data
@@ -358,7 +359,8 @@ def k_cell(run, case):
         label = "%s [existing %s, answer %r, %s]" % (S.name, E, answer, "warnings off" if not confirm_on else "warnings on")
         run.check(rB.exc is None or (answer == "<EOF>" and isinstance(rB.exc, EOFError)) or
                   (answer == "<INT>" and isinstance(rB.exc, KeyboardInterrupt)) or
-                  (answer == "<ERR>" and isinstance(rB.exc, UnicodeDecodeError)), "command does not crash", case,
+                  (answer == "<ERR>" and isinstance(rB.exc, UnicodeDecodeError)) or
+                  (answer == "<NOSTDIN>" and isinstance(rB.exc, RuntimeError)), "command does not crash", case,
                   "%s crashed: %r" % (label, rB.exc), key="crash")
         # S5: nothing written in place of / besides the expected outputs
         extra = sorted(set(after) - set(before) - set(OUT))
